@@ -61,6 +61,7 @@ Qed.
 Definition epoch_op (o : mop) : bool :=
   match o with
   | MEnter _ _ => false
+  | MEnterK _ _ _ => false
   | MK x => negb (is_restart_x x)
   | _ => true
   end.
@@ -91,7 +92,7 @@ Lemma epoch_step s o s' r io :
   | _ => smm_last (sm_of s') = smm_last (sm_of s)
   end.
 Proof.
-  destruct o as [x|h0 r0| |]; cbn [epoch_op mstep]; intros He.
+  destruct o as [x|h0 r0| | |h0 r0 key0|a]; cbn [epoch_op mstep]; intros He.
   - unfold bind. destruct (xstep (ms_k s) x) as [[k' r1]|]; [|discriminate].
     apply negb_true_iff in He. rewrite He.
     intros E; inversion E; subst. unfold sm_of. cbn [ms_m].
@@ -106,6 +107,11 @@ Proof.
       * repeat split. apply Hn. reflexivity.
     + intros E; inversion E; subst. repeat split.
   - destruct (g_output (m_g (ms_m s))) as [[[[c v] n] nl]|]; intros E; inversion E; subst; repeat split.
+  - discriminate.
+  - unfold bind. destruct (act_step _ _ _ _ a) as [k'|]; [|discriminate].
+    intros E; inversion E; subst. unfold sm_of. cbn [ms_m].
+    destruct (fold_mgr_step_sm_fixed (skipn (List.length (st_ev (ms_k s))) (st_ev k')) (ms_m s)) as (A&B&C).
+    repeat split; assumption.
 Qed.
 
 Theorem sm_versions_strictly_increase ops : forall s,
